@@ -2,7 +2,7 @@
 from . import ctrl, steps, twin
 
 OWNED = ["C09."]
-REQUIRED = ["C09.rcond_values_do_not_change_acceptance", "C09.rcond_values_do_not_change_the_step_size", "C09.rcond_values_do_not_change_the_iterate", "C09.rcond_reporting_same_linear_system", "C09.rcond_reporting_same_step", "C09.trial_steps_identical", "C09.same_solution", "C09.same_status", "C09.same_counters", "C09.same_number_of_trials", "C09.same_outcome_kind", "C09.callbacks_see_every_trial"]
+REQUIRED = ["C09.display_does_not_change_acceptance", "C09.display_leaves_the_same_controller_memory", "C09.rcond_values_do_not_change_acceptance", "C09.rcond_values_do_not_change_the_step_size", "C09.rcond_values_do_not_change_the_iterate", "C09.rcond_reporting_same_linear_system", "C09.rcond_reporting_same_step", "C09.trial_steps_identical", "C09.same_solution", "C09.same_status", "C09.same_counters", "C09.same_number_of_trials", "C09.same_outcome_kind", "C09.callbacks_see_every_trial"]
 META = dict(
     functions_encoded=twin.FUNCTIONS + ["(inner display) pygradflow/step/step_control.py:StepController.display_step, compute_step res_func", "pygradflow/display.py:inner_display"],
     stubs=["unobserved run A and observed run B in ONE symbolic execution (same uninterpreted problem, B's step oracle replays A's outputs); B: display_interval symbolic against a symbolic clock (every pattern of displayed rows), logging at DEBUG/INFO with a null handler, a recording ComputedStep callback, collect_path", "L2: real controllers with display=True at DEBUG level (inner per-Newton-step display)"],
@@ -30,6 +30,9 @@ def tasks(tier):
         t.append(dict(module="ctrl", fn="h_step", shape=dict(controller=c, newton=nt, vars=["boxed"], cons=[] if nt == "Simplified" else ["eq0"], faults=False, display=True, debug=True), opts=dict(mulmode="uf", timeout_ms=10000)))
     for c, nt in (("Exact", "Simplified"), ("DistanceRatio", "Simplified"), ("ResiduumRatio", "Full"), ("Fixed", "Simplified"), ("Exact", "ActiveSet")):
         t.append(dict(module="ctrl", fn="h_rcond_effect", shape=dict(controller=c, newton=nt, vars=["boxed"], cons=[], solver_faults=True), opts=dict(mulmode="uf", timeout_ms=10000)))
+    for c, nt, f in (("Exact", "Simplified", False), ("DistanceRatio", "Simplified", True), ("ResiduumRatio", "Full", False), ("Fixed", "Simplified", True), ("Exact", "ActiveSet", True)):
+        for dbg in (True, False):
+            t.append(dict(module="ctrl", fn="h_display_effect", shape=dict(controller=c, newton=nt, vars=["boxed"], cons=[], faults=False, solver_faults=f, debug=dbg), opts=dict(mulmode="uf", timeout_ms=10000)))
     for sv in steps.SOLVERS:
         t.append(dict(module="steps", fn="h_rcond", shape=dict(vars=["boxed"], cons=["eq0"], solver=sv), opts=dict(nra=True, timeout_ms=60000)))
     return t
